@@ -60,6 +60,8 @@ var cur struct {
 	snaps   []map[string]string
 	intFlag map[string]int
 	ckpts   []string
+	crashAt int
+	faultAt int
 }
 
 func NativeMain(t *testing.T, harnesses map[string]func()) {
@@ -109,6 +111,7 @@ func runCase(c Case, h func()) (res CaseResult) {
 	cur.snaps = nil
 	cur.intFlag = nil
 	cur.ckpts = nil
+	cur.crashAt, cur.faultAt = 0, 0
 	cur.choices = nil
 	cur.ci = 0
 	if ch, ok := c.Inputs["@choices"].([]interface{}); ok {
@@ -197,14 +200,36 @@ func Done()                 { cur.res.Done = true }
 func Root() string          { return cur.root }
 func Home() string          { return cur.home }
 func MapOrderNondet()       {}
-func CrashAt(k int)         {}
-func FaultAt(k int)         {}
-func NoCrash()              {}
-func NoFault()              {}
-func Mutations() int        { return 0 }
-func Ops() int              { return 0 }
-func Faulted() bool         { return false }
-func Crashed() bool         { return false }
+
+// Crash / fault injection is done by the instrumented goit binary (VP_GOIT_INSTR, built with package zzos in place of os).
+func eventsPath() string { return filepath.Join(filepath.Dir(cur.root), "events") }
+func countsPath() string { return filepath.Join(filepath.Dir(cur.root), "counts") }
+func CrashAt(k int) {
+	cur.crashAt, cur.faultAt = k, 0
+	os.Remove(eventsPath())
+	os.Remove(countsPath())
+}
+func FaultAt(k int) {
+	cur.faultAt, cur.crashAt = k, 0
+	os.Remove(eventsPath())
+	os.Remove(countsPath())
+}
+func NoCrash() { cur.crashAt = 0 }
+func NoFault() { cur.faultAt = 0 }
+func countOf(c string) int {
+	b, _ := os.ReadFile(countsPath())
+	return strings.Count(string(b), c)
+}
+func Mutations() int { return countOf("m") }
+func Ops() int       { return countOf("o") }
+func Faulted() bool {
+	b, _ := os.ReadFile(eventsPath())
+	return strings.Contains(string(b), "fault at")
+}
+func Crashed() bool {
+	b, _ := os.ReadFile(eventsPath())
+	return strings.Contains(string(b), "crash after")
+}
 func Sha1(data []byte) []byte {
 	s := sha1.Sum(data)
 	return s[:]
@@ -239,6 +264,7 @@ func tzFile(offsetSec int) string {
 }
 
 func SetClock(unixDigits string, offsetSec int) { cur.tz = tzFile(offsetSec) }
+func ClockControlled() bool                       { return false }
 func Time(unixDigits string, offsetSec int) time.Time {
 	u, _ := strconv.ParseInt(unixDigits, 10, 64)
 	return time.Unix(u, 0).In(time.FixedZone("VPZ", offsetSec))
@@ -271,9 +297,16 @@ func Run(argv ...string) Result {
 		}
 		cur.intFlag = nil
 	}
+	env := []string{"HOME=" + cur.home, "PATH=/usr/bin:/bin", "NO_COLOR=1"}
+	if cur.crashAt > 0 || cur.faultAt > 0 {
+		if ib := os.Getenv("VP_GOIT_INSTR"); ib != "" {
+			bin = ib
+		}
+		env = append(env, "VP_CRASH_AT="+strconv.Itoa(cur.crashAt), "VP_FAULT_AT="+strconv.Itoa(cur.faultAt),
+			"VP_COUNT_FILE="+countsPath(), "VP_EVENT_FILE="+eventsPath())
+	}
 	cmd := exec.Command(bin, args...)
 	cmd.Dir = cur.root
-	env := []string{"HOME=" + cur.home, "PATH=/usr/bin:/bin", "NO_COLOR=1"}
 	if cur.tz != "" {
 		env = append(env, "TZ="+cur.tz)
 	} else {
